@@ -80,6 +80,19 @@ func H_C20_truthy() {
 	} else {
 		vrtAssert(len(fa) == 0, "filter drops false-like elements")
 	}
+	// a filter followed by a projection uses the same rule
+	fp, err := Search("[?@].length(to_array(@))", []any{x})
+	vrtAssert(err == nil, "filter + projection never fails")
+	fpa, _ := fp.([]any)
+	if t {
+		vrtAssert(len(fpa) == 1, "filter projection keeps true-like elements")
+	} else {
+		vrtAssert(len(fpa) == 0, "filter projection drops false-like elements")
+	}
+	fo, err := Search("[?p].q", []any{map[string]any{"p": x, "q": "v"}})
+	vrtAssert(err == nil, "filter on a member + projection never fails")
+	foa, _ := fo.([]any)
+	vrtAssert((len(foa) == 1) == t, "filter + projection uses the one truthiness rule")
 	// zero is true-like
 	z, err := Search("!`0` || !`0.0`", nil)
 	vrtAssert(err == nil && z == any(false), "zero is not false-like")
